@@ -28,6 +28,17 @@ DEFAULT_OPAQUE_IDS = ('ipr::util::string::arena::make_string(const char8_t *, lo
 SKIP_ACCESSORS = {'accept', 'begin', 'end'}
 
 
+def holder_field(o):
+    """The single data member of an Optional<T> / util::ref<T> object (whatever it is called)."""
+    ks = list(o.fields)
+    return ks[0] if len(ks) == 1 else 'ptr'
+
+
+# the containers behind every node sequence: what they answer for size() / get(i) is an observation of the container,
+# named by the call -- however the member function computes it (std::distance, a counting loop, vector::size)
+SEQUENCE_STORES = ('ipr::impl::obj_list', 'ipr::impl::obj_sequence', 'ipr::impl::ref_sequence')
+
+
 def default_opaque(F):
     def op(fid):
         f = F.fn.get(fid)
@@ -36,6 +47,9 @@ def default_opaque(F):
         if f['name'] in DEFAULT_OPAQUE_NAMES:
             return True
         if fid in DEFAULT_OPAQUE_IDS:
+            return True
+        if f['name'] in ('size', 'get') and fid.endswith(' const') and \
+                (F.rec.get(f.get('parent') or '', {}).get('template') in SEQUENCE_STORES):
             return True
         return False
     return op
@@ -160,7 +174,7 @@ def render(t, st, names, _d=0):
             w = 'some' if o.cls.startswith('ipr::Optional<') else 'ref'
             if o.origin and o.origin[0] == 'copy':
                 return R(o.origin[1])
-            p = o.fields.get('ptr')
+            p = o.fields.get(holder_field(o))
             if p is None:
                 return w + '(?)'
             if p == symex.NULL:
@@ -219,55 +233,7 @@ def render(t, st, names, _d=0):
     return show(t, st)
 
 
-def fn_qname(fid):
-    """Qualified name of a function id (drop the parameter list and cv-qualifier)."""
-    s = fid
-    for suf in (' const &&', ' &&', ' const'):
-        if s.endswith(suf):
-            s = s[:-len(suf)]
-    if not s.endswith(')'):
-        return s
-    depth = 0
-    for i in range(len(s) - 1, -1, -1):
-        if s[i] == ')':
-            depth += 1
-        elif s[i] == '(':
-            depth -= 1
-            if depth == 0:
-                return s[:i]
-    return s
-
-
-def fn_simple(fid):
-    """Unqualified name of a function id, template arguments stripped (operator names kept whole)."""
-    q = fn_qname(fid)
-    # cut at the last top-level '::'
-    depth = 0
-    cut = 0
-    i = 0
-    while i < len(q):
-        ch = q[i]
-        if ch in '<(':
-            # `operator<`, `operator<=`, `operator()` are names, not brackets
-            if q[:i].endswith('operator') or q[:i].endswith('operator<') or q[:i].endswith('operator('):
-                i += 1
-                continue
-            depth += 1
-        elif ch in '>)':
-            if q[:i].endswith('operator') or q[:i].endswith('operator-') or q[:i].endswith('operator>') or q[:i].endswith('operator('):
-                i += 1
-                continue
-            depth -= 1
-        elif ch == ':' and depth == 0 and q[i:i + 2] == '::':
-            cut = i + 2
-            i += 1
-        i += 1
-    name = q[cut:]
-    if not name.startswith('operator') and '<' in name:
-        name = name[:name.index('<')]
-    elif name.startswith('operator') and name.endswith('>') and '<' in name[8:] and not name.startswith(('operator<', 'operator>', 'operator->')):
-        name = name[:name.index('<', 8)]
-    return name
+from symex import fn_qname, fn_simple  # noqa: E402  (defined next to the evaluator, which needs them too)
 
 
 def short(q):
